@@ -2197,6 +2197,9 @@ def scope_leak_cases(prefix):
         ("A t Q", ["loop(i,1)", "loop(j,1)", "let t = 3;", "end loop", "(t) X X", "end loop", "(t) X X"], ["t"]),
         ("A w Q", ["let w = 0;", "while(w < 2)", "let w = w + 1;", "(w) X X", "end while", "(w) X X"], []),
         ("A n Q", ["loop(n,2)", "repeat(2) (n) X X", "(n) X X", "end loop", "(n) X X"], ["n"]),
+        # an inner loop whose counter has the name of the binding made LAST in the enclosing loop's frame
+        ("A j Q", ["loop(a,2)", "let j = 9;", "loop(j,2)", "(j) X X", "end loop", "(j) X X", "end loop", "(a) X X"], ["j", "a"]),
+        ("A j Q", ["let j = 4;", "loop(a,2)", "let k = 1;", "let j = 9;", "loop(j,3)", "loop(j,2)", "(j) X X", "end loop", "(j) X X", "end loop", "(j+k) X X", "end loop"], []),
     ]
     for i, (hdr, body, outs) in enumerate(shapes):
         oname = hdr.split()[1]
@@ -2448,3 +2451,21 @@ _extend("C06", c07_many_signals, "plus signal lists of 64-130 signals")
 # C09 / C12: hundreds of blank lines before the header
 _extend("C09", lambda seed, tier: [{"id": "c09-lead-%d" % n, "kind": "parse", "src": "\n" * n + "A Q\n1 X\n", "text_kind": "lead-blank"} for n in (300, 900, 2500, 6000)],
         "plus texts with up to 6000 blank lines before the header")
+
+
+# C10: thousands of passes through a loop / while that yields no row (one next() call works through all of them)
+def long_silent_loops(prefix):
+    sigs = [_sig("A", "I", 32), _sig("Q", "O", 4)]
+    cases = []
+    for i, body in enumerate([["let w = 0;", "while(w < 3000)", "let w = w + 1;", "end while", "(w) X"],
+                              ["let s = 0;", "loop(i,5000)", "let s = s + i;", "end loop", "(s) X"],
+                              ["let s = 0;", "loop(i,70)", "loop(j,70)", "let s = s + 1;", "end loop", "end loop", "(s) X", "while(s > 0)", "let s = s - 1;", "end while", "(s) X"],
+                              ["1 X", "let w = 0;", "while(w < 20000)", "let w = w + 1;", "end while", "2 X"]]):
+        for kind in ("run", "static"):
+            cases.append({"id": "%s-silent-%d-%s" % (prefix, i, kind), "kind": kind, "src": "A Q\n" + "\n".join(body) + "\n", "sigs": [dict(s_) for s_ in sigs],
+                          "layout": [1], "table": [["1"]], "echo": 0, "wdefault": 0, "faults": [], "max": 20, "seed": 1, "fuel": 400000})
+    return cases
+
+
+for _p in ("C10", "C01"):
+    _extend(_p, (lambda pref: (lambda seed, tier: long_silent_loops(pref)))(_p.lower()), "plus loops / whiles with 3000-20000 passes that yield no row")
